@@ -27,7 +27,8 @@ def one(kind, name, run_tests, tier):
             env = dict(os.environ, CARGO_TARGET_DIR=os.path.join(scratch, "target"), CARGO_NET_OFFLINE="true")
             t = subprocess.run(["cargo", "test", "--offline", "--quiet"], cwd=tree, env=env, capture_output=True, text=True)
             if t.returncode != 0:
-                return (kind, name, "BAD-VARIANT", "variant does not pass the test suite:\n" + (t.stdout + t.stderr)[-1500:])
+                fails = [l.strip() for l in (t.stdout + t.stderr).splitlines() if l.startswith("    ") and "::" in l and " " not in l.strip()]
+                return (kind, name, "BAD-VARIANT", "variant does not pass the test suite: " + (", ".join(sorted(set(fails)))[:300] or (t.stdout + t.stderr)[-400:]))
         props = meta["properties"] if kind == "mutants" else ALL
         env = dict(os.environ, XSGV_REPO=tree, XSGV_NO_EVIDENCE="1")
         msgs = []
